@@ -97,10 +97,16 @@ def build_project(root: Path, codemod_ids, rendered, extra_files=None):
         files.update(extra_files)
     runner.write_tree(proj, files)
     argv_extra = []
+    split = max([rd.get("split_results", 1) for _, rd in rendered] + [1])
     for opt, docs in docs_by_tool.items():
-        p = root / (opt.strip("-") + ".json")
-        p.write_text(json.dumps(progspace.merge_docs(docs)))
-        argv_extra += [opt, str(p)]
+        merged = progspace.merge_docs(docs)
+        pieces = progspace.split_doc(merged, split) if split > 1 else [merged]
+        paths = []
+        for i, piece in enumerate(pieces):
+            p = root / (opt.strip("-") + (f".{i}" if i else "") + ".json")
+            p.write_text(json.dumps(piece))
+            paths.append(str(p))
+        argv_extra += [opt, ",".join(paths)]
     return proj, rels, argv_extra
 
 
